@@ -411,7 +411,7 @@ func oracleC08(r *Result) ([]Violation, bool) {
 			last[e.I] = "D"
 		case "q":
 			for _, sn := range e.Snap {
-				if sn.InStop || sn.Cut {
+				if sn.InStop || sn.Cut || sn.Fine {
 					continue
 				}
 				bal := sn.NProm - sn.NDem
@@ -465,6 +465,14 @@ func oracleC09(r *Result) ([]Violation, bool) {
 		lead  bool
 	}
 	open := map[string]call{}
+	// stop calls during which another mechanism's OnDemote ran: the instance was no
+	// longer leader when the stop call sampled it (only distinguishable in fine mode)
+	// ownEdge: the claim was cleared by the stop call itself (not by another mechanism
+	// that demoted the instance after the call had been issued but before it sampled
+	// the flag, which only fine mode can produce)
+	ownEdge := map[string]bool{}
+	closedCalls := map[string]bool{}
+	lastLead := map[string]bool{}
 	stopped := map[string]bool{} // stop returned nil, no Start call since
 	tStop := map[string]time.Duration{}
 	for _, e := range r.Trace {
@@ -481,6 +489,7 @@ func oracleC09(r *Result) ([]Violation, bool) {
 				continue
 			}
 			c := open[e.S]
+			closedCalls[e.S] = true
 			it := itemOf(r, e.S)
 			if it == nil {
 				continue
@@ -498,11 +507,19 @@ func oracleC09(r *Result) ([]Violation, bool) {
 			if e.S2 == "nil" {
 				stopped[e.I] = true
 				tStop[e.I] = e.T
-				if it.DeleteKey && c.lead && e.Rec != nil && e.Rec.ID == e.I && e.Rec.By == e.I {
+				if it.DeleteKey && c.lead && ownEdge[e.S] && e.Rec != nil && e.Rec.ID == e.I && e.Rec.By == e.I {
 					s.add(e.T, "key-not-deleted", "%s: StopWithContext{DeleteKey} returned nil at %v while leader at the call, but its record rev %d is still live", e.I, e.T, e.Rec.Rev)
 				}
 			}
 		case "gauge":
+			if lastLead[e.I] && !e.B {
+				for name := range open {
+					if strings.Contains(name, ":"+e.I+"@") && !closedCalls[name] {
+						ownEdge[name] = strings.HasPrefix(e.S2, "fire:stop") || strings.HasPrefix(e.S2, "run:api#")
+					}
+				}
+			}
+			lastLead[e.I] = e.B
 			if stopped[e.I] && e.B {
 				s.add(e.T, "leader-after-stop", "%s reports leadership at %v although its stop call returned at %v (step %s)", e.I, e.T, tStop[e.I], evKind(e.S2))
 			}
@@ -526,7 +543,9 @@ func oracleC09(r *Result) ([]Violation, bool) {
 		case "q":
 			for _, sn := range e.Snap {
 				if sn.Blocked {
-					s.add(e.T, "status-blocked", "%s: Status() does not return at %v (election mutex held for ever)", sn.I, e.T)
+					if !sn.Fine {
+						s.add(e.T, "status-blocked", "%s: Status() does not return at %v (election mutex held for ever)", sn.I, e.T)
+					}
 					continue
 				}
 				if !stopped[sn.I] {
@@ -588,6 +607,33 @@ func oracleC18(r *Result) ([]Violation, bool) {
 			if strings.HasPrefix(e.S, "start:") && e.S2 == "nil" {
 				afterStart[e.I] = true
 			}
+			if strings.HasPrefix(e.S, "status:") {
+				// a Status() snapshot taken by a concurrent caller (fine-mode scenarios)
+				f := strings.Split(e.S2, "|")
+				if len(f) == 5 {
+					nontrivial = true
+					state, isL, lid, tok := f[0], f[1] == "true", f[2], f[3]
+					if isL != (state == "LEADER") {
+						s.add(e.T, fmt.Sprintf("isleader-vs-state/%v-%s", isL, state), "%s: a concurrent Status() call returned IsLeader=%v with State=%s", e.I, isL, state)
+					}
+					if isL {
+						if lid != e.I {
+							s.add(e.T, "leader-snapshot-leaderid", "%s: a concurrent Status() call of a leader returned LeaderID=%q", e.I, lid)
+						}
+						own := false
+						for _, op := range r.Ops {
+							if op.Inst == e.I && op.Wrote != nil && !op.Wrote.Del {
+								if p, ok := parsePayload(op.Val); ok && p.Token == tok {
+									own = true
+								}
+							}
+						}
+						if !own {
+							s.add(e.T, "leader-snapshot-token", "%s: a concurrent Status() call of a leader returned token %q which the instance never wrote", e.I, tok)
+						}
+					}
+				}
+			}
 		case "promote":
 			termTok[e.I] = e.S
 		case "transition":
@@ -622,14 +668,14 @@ func oracleC18(r *Result) ([]Violation, bool) {
 					if tt := termTok[sn.I]; tt != "" && sn.SToken != tt && sn.NProm-sn.NDem == 1 {
 						s.add(e.T, "leader-snapshot-token", "%s: leader's Status().Token is %s, term token %s", sn.I, sn.SToken, tt)
 					}
-					if sn.OwnRev != 0 && sn.SRev != sn.OwnRev && sn.Pend == 0 {
+					if sn.OwnRev != 0 && sn.SRev != sn.OwnRev && sn.Pend == 0 && !sn.Fine {
 						s.add(e.T, "leader-snapshot-revision", "%s: leader's Status().Revision is %d at %v, its latest acknowledged write has revision %d", sn.I, sn.SRev, e.T, sn.OwnRev)
 					}
 				}
 				if stopped[sn.I] && (sn.State != "STOPPED" || sn.SIsLead) {
 					s.add(e.T, "after-stop/"+sn.State, "%s: after a returned stop Status() shows State=%s IsLeader=%v at %v", sn.I, sn.State, sn.SIsLead, e.T)
 				}
-				if sn.Gauge >= 0 && !sn.InStop && (sn.Gauge == 1) != sn.IsLeader {
+				if sn.Gauge >= 0 && !sn.InStop && !sn.Fine && (sn.Gauge == 1) != sn.IsLeader {
 					s.add(e.T, "gauge-differs", "%s: is-leader gauge is %d but IsLeader()=%v at %v", sn.I, sn.Gauge, sn.IsLeader, e.T)
 				}
 				// follower convergence
@@ -677,7 +723,7 @@ func oracleC19(r *Result) ([]Violation, bool) {
 						sn = &e.Snap[i]
 					}
 				}
-				if sn == nil || sn.Cut {
+				if sn == nil || sn.Cut || sn.Fine {
 					continue
 				}
 				ended := !sn.IsLeader || sn.Token != t.tok
@@ -691,4 +737,24 @@ func oracleC19(r *Result) ([]Violation, bool) {
 		}
 	}
 	return s.vs, nontrivial
+}
+
+// curStep returns the name of the scheduler event during which trace event e was
+// recorded (the choice made at the preceding quiescent point).
+func curStep(r *Result, e Ev) string {
+	qi := 0
+	last := ""
+	for _, x := range r.Trace {
+		if x.K == "q" {
+			if qi < len(r.Chosen) {
+				last = r.Chosen[qi]
+			}
+			qi++
+			continue
+		}
+		if x.T == e.T && x.K == e.K && x.I == e.I && x.S == e.S {
+			return last
+		}
+	}
+	return last
 }
